@@ -16,7 +16,9 @@ RULE = ('generated consistent / weakly consistent bases x random fact lists (str
         'worlds get the top rank, an unsatisfiable combination raises ValueError carrying the diagnostics line, '
         'and the diagnostics stored in metadata equal the reference flags. Non-trivial = base with >= 2 layers, a '
         'non-empty infinity layer, or facts; distinct by hash(base, facts, extended).')
-ASSUMPTIONS = ['worlds enumerated: <= 5 atoms']
+ASSUMPTIONS = ['worlds enumerated: <= 5 atoms; every 90th case has 11-12 atoms and is judged relationally (acceptance = System Z operator)']
+HARD_TIMEOUT = 400
+SOFT_TIMEOUT = 300
 TRUSTED = []
 FLOOR = {'quick': 300, 'thorough': 3000}
 BUDGET = {'quick': 100, 'thorough': 1200}
@@ -28,11 +30,52 @@ REQUIRED = {'quick': {'objects_with_facts': 100, 'refusals_with_diagnostics': 20
 
 
 def cases(tier, seed):
-    return [{'prop': ID, 'seed': seed, 'idx': i} for i in range(N[tier])]
+    out = [{'prop': ID, 'seed': seed, 'idx': i, 'large': i % 90 == 5} for i in range(N[tier])]
+    out.sort(key=lambda c: not c['large'])
+    return out
+
+
+def run_large(case):
+    """more than 10 atoms: no world enumeration; the ranking object's acceptance verdict must equal the
+    System Z operator's answer (real code against itself) and base rules must be accepted"""
+    from inference.preocf import PreOCF
+    from .. import corpus
+    rng = gen.rng_for(case['seed'], ID, case['idx'])
+    res = {'evals': 0, 'nontrivial': [], 'violations': [], 'inconclusive': [], 'counters': {}}
+    for _ in range(40):
+        sig, conds = corpus.union_base(rng, parts=3, want='strong')
+        if 11 <= len(sig) <= 12:
+            break
+    else:
+        return res
+    res['counters']['large_objects'] = 1
+    bdesc = {'atoms': len(sig), 'conditionals': len(conds), 'conds': [fml.cond_text(*c) for c in conds]}
+    o = PreOCF.init_system_z(impl.mk_bb(sig, conds))
+    qs = []
+    B, A = rng.choice(conds)
+    qs.append((B, A))                                           # a base rule
+    qs.append((B, fml.And(A, B)))                               # A entails B: A & !B has no model
+    x = fml.V(rng.choice(sig))
+    qs.append((fml.Or(x, fml.Not(x)), fml.And(A, fml.Not(B))))  # consequent valid, antecedent exceptional
+    qs.append(corpus.derived_queries(rng, sig, conds, 1)[0])
+    op = impl.results(impl.ask(impl.mk_bb(sig, conds), 'system-z', '', impl.mk_queries(qs)))
+    for qi, (B, A) in enumerate(qs):
+        acc = o.conditional_acceptance(impl.mk_cond(B, A))
+        res['evals'] += 1
+        res['nontrivial'].append(h(bdesc, fml.cond_text(B, A)))
+        res['counters']['large_acceptance_vs_operator'] = res['counters'].get('large_acceptance_vs_operator', 0) + 1
+        if acc != op[qi]:
+            res['violations'].append({'sig': 'zocf:acceptance-differs-from-operator:more-than-10-atoms',
+                                      'detail': {'base': bdesc, 'query': fml.cond_text(B, A), 'acceptance': acc,
+                                                 'operator': op[qi]}})
+    res['sample'] = {'base': bdesc, 'kind': 'large (acceptance vs operator)', 'queries': [fml.cond_text(*q) for q in qs]}
+    return res
 
 
 def run_case(case):
     from inference.preocf import PreOCF
+    if case.get('large'):
+        return run_large(case)
     rng = gen.rng_for(case['seed'], ID, case['idx'])
     res = {'evals': 0, 'nontrivial': [], 'violations': [], 'inconclusive': [], 'counters': {}}
     cnt = res['counters']
